@@ -1,13 +1,20 @@
 // UNIT SEL (Kani, bounded in the number of sources) — the coordinator's selection expression (C01, C06).
 // The expression is cut from processing_loop on every run; what runs is core's real Iterator::min_by.
 // ASSUMED: BTreeMap::iter_mut yields entries in ascending key order (VMap: array in ascending key order)
-// ASSUMED: chrono DateTime::cmp compares instants (DateTimeL stand-in = i64 instant)
+// ASSUMED: chrono DateTime::cmp compares instants (DateTimeL stand-in = (ms, ns inside the ms), compared lexicographically)
 // ASSUMED: LogMessage::dt returns the message's datetime (stand-in struct with one field)
 #![allow(dead_code, unused_variables, unused_mut)]
 use std::cmp::Ordering;
 
+// the stand-in instant is (whole milliseconds, nanoseconds inside the millisecond): derived Ord is lexicographic = instant order;
+// chrono's integer accessors, should a selection expression use them, without 64-bit division (which CBMC cannot afford)
+// ASSUMED: chrono DateTime::timestamp_millis floors the instant to ms; timestamp_micros / timestamp_nanos_opt to us / ns
 #[derive(Clone, Copy, PartialEq, Eq, PartialOrd, Ord)]
-pub struct DateTimeL(pub i64);
+pub struct DateTimeL { pub ms: i64, pub sub_ns: u32 }
+impl DateTimeL {
+    pub fn timestamp_millis(&self) -> i64 { self.ms }
+    pub fn timestamp_subsec_nanos(&self) -> u32 { self.sub_ns }
+}
 pub struct LogMessage { pub dt: DateTimeL }
 impl LogMessage { pub fn dt(&self) -> &DateTimeL { &self.dt } }
 pub type PathId = usize;
@@ -39,13 +46,14 @@ impl<const N: usize> VMap<N> {
 #[cfg(kani)]
 fn sel_check<const N: usize>(flip_tie: bool) {
     let keys: [PathId; N] = kani::any();
-    let dts: [i64; N] = kani::any();
+    let dts: [(i64, u32); N] = kani::any();
+    { let mut i = 0; while i < N { kani::assume(dts[i].1 < 1_000_000); i += 1; } }
     let len: usize = kani::any();
     kani::assume(len <= N);
     let mut i = 1;
     while i < N { kani::assume(keys[i - 1] < keys[i]); i += 1; }
     let rot: usize = kani::any();
-    let mut map_pathid_datum: VMap<N> = VMap { keys, vals: core::array::from_fn(|i| (LogMessage { dt: DateTimeL(dts[i]) }, false)), len, rot };
+    let mut map_pathid_datum: VMap<N> = VMap { keys, vals: core::array::from_fn(|i| (LogMessage { dt: DateTimeL { ms: dts[i].0, sub_ns: dts[i].1 } }, false)), len, rot };
 //@cut slice path=src/bin/s4.rs fn=processing_loop anchor="(pathid, log_message, is_last) = match " take=expr until="{" label=SEL
 //@head
     let r =
@@ -56,7 +64,7 @@ fn sel_check<const N: usize>(flip_tie: bool) {
         None => assert!(len == 0),
         Some(val) => {
             let k = *val.0;
-            let d = val.1.0.dt().0;
+            let d = (val.1.0.dt().ms, val.1.0.dt().sub_ns);
             let mut found = false;
             let mut j = 0;
             while j < N {
